@@ -183,6 +183,12 @@ def parseSep (s : String) : Sep :=
     | f :: o => .custom f o (d.toInt?.getD 1)
   | _ => .char []
 
+/-- How an operation's `sep=` sets the recipe's two separator fields: `char:` is `SeparatorChar`
+with no function, everything else a function (with `sepchar=`, if given, in the other field). -/
+def sepField (s : Sep) : Option Sep := match s with | .char _ => none | f => some f
+
+def sepCharOf (s : Sep) (extra : Word) : Word := match s with | .char c => c | _ => extra
+
 def parseToks (s : String) : List (Token (List Nat)) :=
   if s == "-" || s == "" then [] else
   (s.splitOn ",").map fun f =>
@@ -238,7 +244,7 @@ def cliLine (env : Env) (as : List (String × String)) : String :=
     match built with
     | none => s!"fatal exit={t.exitCatchall}"
     | some (wl, dups) =>
-      let r : WLRecipe := { list := some wl, length := L, sep := cliSep sep, capitalize := cap }
+      let r : WLRecipe := { list := some wl, length := L, sepFunc := some (cliSep sep), capitalize := cap }
       let okGen := decide (1 ≤ L)
       let d : Int := match (r.entropy cfg).run (List.replicate 8 0) with
         | .done d _ => d
@@ -337,7 +343,7 @@ def exec (env : Env) (line : String) : String :=
       let (ws, title) := wordsAndTitle as
       let list : Option WordList :=
         if (arg as "words") == "nil" then none else (newListOf env as ws title).map (·.1)
-      let r : WLRecipe := { list := list, length := argInt as "L", sep := parseSep (arg as "sep"),
+      let r : WLRecipe := { list := list, length := argInt as "L", sepChar := sepCharOf (parseSep (arg as "sep")) (parseCps (arg as "sepchar")), sepFunc := sepField (parseSep (arg as "sep")),
                             capitalize := strOfCps (parseCps (arg as "cap")) }
       let tape := parseCps (arg as "tape")
       if op == "wlgen" then
@@ -353,7 +359,7 @@ def exec (env : Env) (line : String) : String :=
       match (newListOf env as ws title).map (·.1) with
       | none => "err empty-list"
       | some wl =>
-        let r : WLRecipe := { list := some wl, length := argInt as "L", sep := parseSep (arg as "sep"),
+        let r : WLRecipe := { list := some wl, length := argInt as "L", sepChar := sepCharOf (parseSep (arg as "sep")) (parseCps (arg as "sepchar")), sepFunc := sepField (parseSep (arg as "sep")),
                               capitalize := strOfCps (parseCps (arg as "cap")) }
         wlCell cfg title r
     else if op == "explode" then
